@@ -65,6 +65,13 @@ func (ex *Exec) callFn(fr *Frame, st *State, pc *Term, fn *ssa.Function, args []
 	if i := strings.LastIndex(base, "."); i >= 0 {
 		base = base[i+1:]
 	}
+	if i := strings.Index(key, "["); i >= 0 {
+		// instance of a generic primitive
+		base = key[:i]
+		if j := strings.LastIndex(base, "."); j >= 0 {
+			base = base[j+1:]
+		}
+	}
 	switch base {
 	case "verif_forall", "verif_forall2", "verif_forall3":
 		return ex.specForall(fr, st, pc, args[0]), pc
